@@ -14,6 +14,18 @@ PROPS = {
         "thorough": {"stages": [st("^TestC01", 15000, shards=16)],
                      "fuzz": [{"target": "FuzzC01Serialize", "seconds": 90}]},
     },
+    "C10": {
+        "pkg": "core", "level": "exploration",
+        "quick": {"stages": [st("^TestC10", 15000)]},
+        "thorough": {"stages": [st("^TestC10", 150000, shards=16)],
+                     "fuzz": [{"target": "FuzzC10Decode", "seconds": 120}]},
+    },
+    "C11": {
+        "pkg": "core", "level": "exploration",
+        "quick": {"stages": [st("^TestC11", 12000)]},
+        "thorough": {"stages": [st("^TestC11", 120000, shards=16)],
+                     "fuzz": [{"target": "FuzzC11Admission", "seconds": 90}]},
+    },
     "C02": {
         "pkg": "core", "level": "exploration",
         "quick": {"stages": [st("^TestC02", 6000)]},
